@@ -35,6 +35,8 @@ type c08req struct {
 	URL    string            `json:"url"`
 	Body   []byte            `json:"body,omitempty"`
 	Hdr    map[string]string `json:"hdr,omitempty"`
+	// WatchdogMS overrides the 5 s watchdog (used by the parent to confirm a hang on a loaded machine)
+	WatchdogMS int `json:"watchdog_ms,omitempty"`
 }
 
 type c08obs struct {
@@ -233,14 +235,18 @@ func workerMain() {
 		}()
 		var o c08obs
 		tick := time.NewTicker(20 * time.Millisecond)
-		deadline := time.After(watchdog)
+		wd := watchdog
+		if rq.WatchdogMS > 0 {
+			wd = time.Duration(rq.WatchdogMS) * time.Millisecond
+		}
+		deadline := time.After(wd)
 	wait:
 		for {
 			select {
 			case o = <-done:
 				break wait
 			case <-deadline:
-				o = c08obs{Class: "hang", Raw: "no response within 5 s", Site: hangSite()}
+				o = c08obs{Class: "hang", Raw: fmt.Sprintf("no response within %v", wd), Site: hangSite()}
 				break wait
 			case <-tick.C:
 				if memHit.Load() {
